@@ -169,6 +169,14 @@ def dds_hash(x: Any) -> PyHash:
     return _dds_hash(x, None)
 
 
+def _hash_arg_value(x: Any) -> PyHash:
+    """
+    The hash of the value bound to a parameter. The same value must get the same hash whether it is
+    passed at run time, read as a literal in the source code, or taken from the default of the parameter.
+    """
+    return dds_hash(x if x is not None else "__none__")
+
+
 def get_arg_list(
     f: Callable,  # type: ignore
 ) -> List[str]:
@@ -201,12 +209,12 @@ def get_arg_ctx(
             # It is a list argument
             # TODO: should it discard arguments of not-whitelisted types?
             # TODO: raise a warning for non-whitelisted objects
-            h = dds_hash(args[idx])
+            h = _hash_arg_value(args[idx])
         else:
             # Either positional or default argument
             if n in kwargs:
                 # positional argument
-                h = dds_hash(kwargs[n])
+                h = _hash_arg_value(kwargs[n])
             elif p.default != Parameter.empty:
                 # Argument is not provided but it has a default value
                 # Use the default argument as an input
@@ -214,7 +222,7 @@ def get_arg_ctx(
                 # a warning/errors in most linters.
                 # TODO: should it discard arguments of not-whitelisted types?
                 # TODO: raise a warning for non-whitelisted objects
-                h = dds_hash(p.default or "__none__")
+                h = _hash_arg_value(p.default)
             elif p.kind == Parameter.VAR_KEYWORD:
                 # kwargs: for now, just ignored
                 h = None
@@ -257,8 +265,7 @@ def get_arg_ctx_ast(
         # NameConstant for python 3.5 - 3.7
         if isinstance(node, (ast.Constant, ast.NameConstant)):
             # We can deal with some constant nodes
-            default_ob = node.value if node.value is not None else "__none__"
-            return dds_hash(default_ob)
+            return _hash_arg_value(node.value)
         else:
             # Cannot deal with it for the time being
             return None
@@ -292,7 +299,7 @@ def get_arg_ctx_ast(
                 # a warning/errors in most linters.
                 # TODO: should it discard arguments of not-whitelisted types?
                 # TODO: raise a warning for non-whitelisted objects
-                h = dds_hash(p.default or "__none__")
+                h = _hash_arg_value(p.default)
             else:
                 # Do not consider this argument for the time being
                 h = None
